@@ -231,6 +231,9 @@ class Interp:
         self.depth = 0
         self.stack = []
         self.unit_checks = []
+        self.lost = []           # statements that are calls made for their effect and that the interpretation could not model
+        self.conds = []          # conditions of the data-dependent branches being executed (a side effect recorded by a hook happens under their product)
+        self.nonzero = []        # polynomials a property's configuration assumes to be non-zero (truthy): `if chi and ...`
         self.frames = []         # environments of the functions being interpreted, innermost last (an in-place store is seen by every caller holding the array)
         self.uncaught = None     # text of a library exception that escaped the function interpreted at top level
         self.track_xr = False    # keep expression trees of arithmetic/comparisons (Arr.xr) and log reductions over them
@@ -310,7 +313,11 @@ class Interp:
                 # the statements after a conditional `continue`: executed on the environment of the arm that goes on,
                 # then merged with the environment of the arm that skipped
                 _, skip, e_skip, e_go = sig
-                rest = self.block(body[k + 1:], e_go, mod)
+                self.conds.append(alg.b_not(skip))
+                try:
+                    rest = self.block(body[k + 1:], e_go, mod)
+                finally:
+                    self.conds.pop()
                 if rest is not None and rest[0] not in ('continue',):
                     if rest[0] == 'guard':
                         return rest
@@ -320,7 +327,11 @@ class Interp:
                 return None
             if sig is not None and sig[0] == 'rguard':
                 _, cret, val, e_ret, e_go = sig
-                rest = self.block(body[k + 1:], e_go, mod)
+                self.conds.append(alg.b_not(cret))
+                try:
+                    rest = self.block(body[k + 1:], e_go, mod)
+                finally:
+                    self.conds.pop()
                 if rest is not None and rest[0] == 'return':
                     merge_env(env, e_ret, e_go, cret, st)            # side effects of the part that ran only when not returning early
                     return ('return', merge_val(val, rest[1], cret, st))
@@ -384,7 +395,9 @@ class Interp:
                     env['__yields__'].append(Unk('yield from %r' % (src_,), st))
                 return None
             if isinstance(st.value, (ast.Call, ast.Yield)):
-                self.expr(st.value, env, mod)
+                r_ = self.expr(st.value, env, mod)
+                if isinstance(r_, Unk) and isinstance(st.value, ast.Call):
+                    self.lost.append((getattr(st, 'lineno', 0), up(st.value)[:80], r_.why))       # a call made for its effect was not modelled
             return None
         if isinstance(st, ast.Return):
             return ('return', self.expr(st.value, env, mod) if st.value is not None else None)
@@ -456,7 +469,21 @@ class Interp:
                 sig = self.block(st.finalbody, env, mod)
             return sig
         if isinstance(st, ast.With):
-            return self.block(st.body, env, mod)
+            managed = []
+            for it_ in st.items:
+                cm = self.expr(it_.context_expr, env, mod)
+                if it_.optional_vars is not None:
+                    self.store(it_.optional_vars, cm.obj if isinstance(cm, _Closing) else cm, env, mod)
+                managed.append(cm)
+            sig = self.block(st.body, env, mod)
+            for cm in reversed(managed):
+                if isinstance(cm, _Closing):          # contextlib.closing(x): x.close() on leaving the block
+                    o_ = cm.obj
+                    if isinstance(o_, Obj) and o_.cls is not None and self.repo.find_member(o_.cls, 'close') is not None:
+                        self.call(self.repo.find_member(o_.cls, 'close')[1], [], selfv=o_, node=st)
+                    elif isinstance(o_, Foreign):
+                        o_.sl_method(self, 'close', [], {}, st)
+            return sig
         if isinstance(st, ast.While):
             # a loop whose test is concrete on every iteration (typically `while True` left by break / return / an exception): unrolled, bounded
             for _ in range(64):
@@ -498,6 +525,8 @@ class Interp:
         if isinstance(v, Unk):
             return None
         if isinstance(v, Arr):
+            if v.ndim == 0 and v.mask is None and any(v.poly == z for z in self.nonzero):
+                return True
             if v.ndim == 0 and v.poly.is_const() and v.mask is None:
                 return v.poly.const_value() != 0
             return None
@@ -532,8 +561,16 @@ class Interp:
         # if-conversion on a symbolic scalar condition
         if isinstance(tv, Arr) and tv.ndim == 0 and tv.mask is None and _is_boolean(tv.poly):
             e1, e2 = fork(env), fork(env)
-            s1 = self.block(st.body, e1, mod)
-            s2 = self.block(st.orelse, e2, mod)
+            self.conds.append(tv.poly)
+            try:
+                s1 = self.block(st.body, e1, mod)
+            finally:
+                self.conds.pop()
+            self.conds.append(alg.b_not(tv.poly))
+            try:
+                s2 = self.block(st.orelse, e2, mod)
+            finally:
+                self.conds.pop()
             if s1 is None and s2 is None:
                 merge_env(env, e1, e2, tv.poly, st)
                 return None
@@ -554,8 +591,18 @@ class Interp:
             return None
         # unknown condition: everything assigned in either branch is unknown
         e1, e2 = fork(env), fork(env)
-        s1 = self.block(st.body, e1, mod)
-        s2 = self.block(st.orelse, e2, mod)
+        self._unknown_conds = getattr(self, '_unknown_conds', 0) + 1
+        uc = alg.mk_ind('true', alg.sym('undecided-condition#%d' % self._unknown_conds))     # an opaque bracket: side effects recorded by hooks happen under it
+        self.conds.append(uc)
+        try:
+            s1 = self.block(st.body, e1, mod)
+        finally:
+            self.conds.pop()
+        self.conds.append(alg.b_not(uc))
+        try:
+            s2 = self.block(st.orelse, e2, mod)
+        finally:
+            self.conds.pop()
         def leaves(sg):
             return sg is not None and sg[0] in ('return', 'raise')
         if leaves(s1) and leaves(s2):
@@ -987,6 +1034,12 @@ class Interp:
             return Marker('builtins.' + e.id)
         return Unk('unbound name %s' % e.id, e)
 
+    def path_cond(self):
+        c = Poly.const(1)
+        for x in self.conds:
+            c = c * x
+        return c
+
     def iterate_obj(self, o, node):
         """what iterating an object of a repo class gives: its __iter__ run eagerly"""
         it = self.repo.find_member(o.cls, '__iter__') if o.cls is not None else None
@@ -1204,6 +1257,11 @@ class Interp:
             except Exception as ex:
                 return Unk('constant arithmetic: %s' % ex, node)
         if isinstance(a, str) and isinstance(op, ast.Mod):
+            if isinstance(b, (str, int, float)) or (isinstance(b, tuple) and all(isinstance(x_, (str, int, float)) for x_ in b)):
+                try:
+                    return a % b
+                except Exception:
+                    pass
             return Unk('string formatting', node)
         if isinstance(a, str) and isinstance(b, str) and isinstance(op, ast.Add):
             return a + b
@@ -1489,6 +1547,8 @@ class Interp:
             k = self.expr(e.slice, env, mod)
             if isinstance(k, (str, int)) and k in v:
                 return v[k]
+            if isinstance(k, Arr) and k.ndim == 0 and k.mask is None and _is_boolean(k.poly) and True in v and False in v:
+                return _Select(k.poly, v[True], v[False])         # d[flag] for a flag decided by the data
             if isinstance(k, (str, int, type(None), Foreign)) and all(isinstance(x, (str, int)) for x in v):
                 raise PyRaise('KeyError', repr(k))        # a concrete key (or an object that is no string) that the literal dict does not hold
             return Unk('dict key %r' % (k,), e)
@@ -2188,6 +2248,8 @@ class Interp:
             if last in ('spectral', 'spectral_density'):
                 return Marker(name)
             return Unk('astropy.units.%s' % last, e)
+        if name == 'contextlib.closing' and len(args) == 1:
+            return _Closing(args[0])
         if name.startswith('copy.') and last in ('copy', 'deepcopy') and args and isinstance(args[0], Obj) and args[0].cls is not None:
             src_ = args[0]
             gs_, ss_ = self.repo.find_member(src_.cls, '__getstate__'), self.repo.find_member(src_.cls, '__setstate__')
@@ -2395,6 +2457,12 @@ class Interp:
                 return list(recv.keys())
             return Unk('dict method %s' % name, e)
         if isinstance(recv, str):
+            if all(isinstance(a_, (str, int, float, bool, type(None))) for a_ in list(args) + list(kw.values())) and name in (
+                    'format', 'upper', 'lower', 'strip', 'lstrip', 'rstrip', 'startswith', 'endswith', 'replace', 'split', 'join', 'zfill', 'ljust', 'rjust', 'center', 'title', 'isdigit', 'count', 'find'):
+                try:
+                    return getattr(recv, name)(*args, **kw)        # a string method on concrete strings: computed
+                except Exception as ex_:
+                    raise PyRaise(type(ex_).__name__, str(ex_))
             return Unk('string method %s' % name, e)
         if isinstance(recv, _Interp1d) or name == '__call__':
             pass
@@ -2460,6 +2528,31 @@ class _WhereIdx:
 
     def sel_label(self):
         return 'sel:' + alg.show(self.mask.poly, 400)
+
+
+class _Closing:
+    def __init__(self, obj):
+        self.obj = obj
+
+
+class _Select(Foreign):
+    """one of two objects, chosen by a data-dependent condition: a method call is made on each under its condition"""
+    def __init__(self, cond, a, b):
+        self.cond, self.a, self.b = cond, a, b
+
+    def sl_method(self, interp, name, args, kw, node):
+        out = []
+        for c_, o_ in ((self.cond, self.a), (alg.b_not(self.cond), self.b)):
+            interp.conds.append(c_)
+            try:
+                if isinstance(o_, Obj):
+                    m_ = interp.repo.find_member(o_.cls, name) if o_.cls is not None else None
+                    out.append(interp.call(m_[1], args, kw, selfv=o_, node=node) if m_ is not None else Unk('method %s' % name, node))
+                else:
+                    out.append(interp.method(o_, name, args, kw, node, None))
+            finally:
+                interp.conds.pop()
+        return merge_val(out[0], out[1], self.cond, node)
 
 
 class _SliceVal:
@@ -2882,6 +2975,9 @@ def merge_val(a, b, cond, node):
             return Arr(a.dims, cond * a.poly + alg.b_not(cond) * b.poly, None, a.unit if a.unit == b.unit else None)
     if _is_pyconst(a) and _is_pyconst(b) and a == b and type(a) == type(b):
         return a
+    if cond is not None and isinstance(a, bool) and isinstance(b, (bool, Arr)) or cond is not None and isinstance(b, bool) and isinstance(a, Arr):
+        a = Arr((), num(1 if a else 0)) if isinstance(a, bool) else a         # True / False selected by a condition: a truth value
+        b = Arr((), num(1 if b else 0)) if isinstance(b, bool) else b
     if cond is not None and (_is_pynum(a) or isinstance(a, Arr)) and (_is_pynum(b) or isinstance(b, Arr)):
         aa = a if isinstance(a, Arr) else Arr((), num(a))
         bb = b if isinstance(b, Arr) else Arr((), num(b))
